@@ -189,6 +189,12 @@ impl Writer {
                     if !is_included {
                         // don't use self.add_whitespace() here, because comments don't follow indentation rules
                         // if the comment was indented when it was parsed, then the indentation is preserved in the comment
+                        // a comment written on the same line behind a line comment would become part of that comment
+                        let start_offset = if start_offset == 0 && self.line_comment_open {
+                            1
+                        } else {
+                            start_offset
+                        };
                         for _ in 0..start_offset {
                             self.outstring.push('\n');
                         }
